@@ -1,7 +1,7 @@
 """C02 + C03/C04/C07 date-time level: DateTime<Utc> timestamp constructors/accessors and NaiveDateTime
 add/sub/difference/offset shifts, on the real text of src/datetime/mod.rs and src/naive/datetime/mod.rs,
 over the contracts of the date unit (C01), time unit (C07) and TimeDelta unit (C06)."""
-from unit import Unit, header
+from unit import Unit, header, src
 from specs import prelude as P
 
 FD = 'src/naive/date/mod.rs'
@@ -76,6 +76,8 @@ def build(contracts):
 impl<Tz: TimeZone> Clone for DateTime<Tz> where <Tz as TimeZone>::Offset: Clone {
     #[verifier::external_body] fn clone(&self) -> Self { unimplemented!() }
 }''')
+    from xtract import clean_struct as _cs
+    u.raw(_cs(src('src/offset/mod.rs').enum('LocalResult'), derive=None) + '\ntype MappedLocalTime<T> = LocalResult<T>;')
     u.raw(P.DATE_VIEW_AX + P.TD_VIEW + P.TIME_VIEW + P.DT_VIEW + LEMMAS)
     u.raw('''impl TimeZone for Utc {
     type Offset = Utc;
@@ -89,9 +91,16 @@ impl<Tz: TimeZone> Clone for DateTime<Tz> where <Tz as TimeZone>::Offset: Clone 
     for _f in _g.glob(_os.path.join(_REPO, 'src', '**', '*.rs'), recursive=True):
         if _f.endswith('offset/mod.rs'):
             continue
-        if _re.search(r'fn from_utc_datetime\s*\(', open(_f).read()):
+        _t = open(_f).read()
+        if _re.search(r'fn from_utc_datetime\s*\(', _t):
             raise _AL('an impl overrides TimeZone::from_utc_datetime in ' + _f)
+        for _m in _re.finditer(r'impl(?:<[^>]*>)?\s+TimeZone\s+for\s+[^{]*\{', _t):
+            from xtract import match_close as _mc
+            _blk = _t[_m.end() - 1:_mc(_t, _m.end() - 1)]
+            if _re.search(r'fn (timestamp_opt|timestamp_millis_opt|timestamp_micros|timestamp_nanos)\s*\(', _blk):
+                raise _AL('an impl overrides a provided TimeZone::timestamp_* method in ' + _f)
     u.const(FDT, 'UNIX_EPOCH_DAY')
+    u.const(FTD, 'NANOS_PER_SEC')
     u.raw('impl TimeDelta {')
     for n in ['try_seconds', 'checked_add', 'checked_sub', 'try_days', 'num_days', 'num_seconds', 'subsec_nanos', 'new', 'neg', 'seconds', 'days']:
         u.stub(FTD, n, 'impl TimeDelta {', cid='TimeDelta::' + n)
@@ -165,5 +174,18 @@ impl<Tz: TimeZone> Clone for DateTime<Tz> where <Tz as TimeZone>::Offset: Clone 
             hints = [("expect(Self::from_timestamp(secs, nsecs)", "        proof { dn_range_consts(); }")]
         u.prove(FDT, n, UTC, cid='DateTime::' + n, hints=hints)
     u.raw('}')
+    u.raw('impl NaiveDateTime {')
+    for n in ['from_timestamp_millis', 'from_timestamp_micros', 'from_timestamp_nanos', 'from_timestamp_opt', 'timestamp', 'timestamp_millis', 'timestamp_micros',
+              'timestamp_nanos_opt', 'timestamp_subsec_nanos', 'timestamp_subsec_millis', 'timestamp_subsec_micros']:
+        u.prove(FN, n, IMPL, cid='NaiveDateTime::' + n)
+    u.raw('}')
+    # TimeZone::timestamp_opt / timestamp_millis_opt / timestamp_micros / timestamp_nanos: provided methods, proved on their default bodies as free generic functions
+    for n, args in [('timestamp_opt', 'secs: i64, nsecs: u32'), ('timestamp_millis_opt', 'millis: i64'), ('timestamp_micros', 'micros: i64')]:
+        u.prove('src/offset/mod.rs', n, 'pub trait TimeZone: Sized + Clone {', cid='TimeZone::' + n, rename='TimeZone__' + n,
+                replace_sig='fn TimeZone__%s<Tz: TimeZone>(this: &Tz, %s) -> MappedLocalTime<DateTime<Tz>>' % (n, args),
+                subst=[('self.from_utc_datetime(', 'this.from_utc_datetime(', 'R6 provided trait method proved as a free generic function (self -> this)')])
+    u.prove('src/offset/mod.rs', 'timestamp_nanos', 'pub trait TimeZone: Sized + Clone {', cid='TimeZone::timestamp_nanos', rename='TimeZone__timestamp_nanos',
+            replace_sig='fn TimeZone__timestamp_nanos<Tz: TimeZone>(this: &Tz, nanos: i64) -> DateTime<Tz>',
+            subst=[('self.from_utc_datetime(', 'this.from_utc_datetime(', 'R6 provided trait method proved as a free generic function (self -> this)')])
     u.raw(P.FOOTER)
     return u
